@@ -617,3 +617,95 @@ Proof.
   - destruct (kindof w n), k; cbn in H2; try discriminate; reflexivity.
   - rewrite H2. destruct k; reflexivity.
 Qed.
+
+(* ---------- more list lemmas (slices, dedup, folds) ---------- *)
+
+Lemma NoDup_app_inv {X} (a b : list X) : NoDup (a ++ b) -> NoDup a /\ NoDup b /\ (forall x, In x a -> In x b -> False).
+Proof.
+  induction a as [|y a IH]; intro H.
+  - split; [constructor|]. split; [exact H|]. intros x [].
+  - cbn [app] in H. inversion H as [|y' l' Hy Hl]. subst. destruct (IH Hl) as [Ha [Hb Hd]]. split; [|split].
+    + constructor; [|exact Ha]. intro Hi. apply Hy. apply in_or_app. left. exact Hi.
+    + exact Hb.
+    + intros x [Hx|Hx] Hxb; [subst; apply Hy; apply in_or_app; right; exact Hxb|eapply Hd; eassumption].
+Qed.
+
+Lemma NoDup_app_intro {X} (a b : list X) : NoDup a -> NoDup b -> (forall x, In x a -> In x b -> False) -> NoDup (a ++ b).
+Proof.
+  induction a as [|y a IH]; intros Ha Hb Hd; [exact Hb|].
+  inversion Ha as [|y' l' Hy Hl]. subst. cbn [app]. constructor.
+  - intro Hi. apply in_app_or in Hi. destruct Hi as [Hi|Hi]; [contradiction|]. apply (Hd y); [left; reflexivity|exact Hi].
+  - apply IH; [exact Hl|exact Hb|]. intros x Hx. apply Hd. right. exact Hx.
+Qed.
+
+Lemma filter_none {X} (p : X -> bool) l : (forall x, In x l -> p x = false) -> filter p l = [].
+Proof.
+  induction l as [|y l IH]; intro H; [reflexivity|]. cbn [filter]. rewrite (H y) by (left; reflexivity).
+  apply IH. intros x Hx. apply H. right. exact Hx.
+Qed.
+
+Lemma filter_all {X} (p : X -> bool) l : (forall x, In x l -> p x = true) -> filter p l = l.
+Proof.
+  induction l as [|y l IH]; intro H; [reflexivity|]. cbn [filter]. rewrite (H y) by (left; reflexivity).
+  f_equal. apply IH. intros x Hx. apply H. right. exact Hx.
+Qed.
+
+Lemma fold_remove_filter vs : forall l, fold_left (fun l v => remove_id v l) vs l = filter (fun x => negb (mem x vs)) l.
+Proof.
+  induction vs as [|v vs IH]; intro l.
+  - cbn [fold_left]. symmetry. apply filter_all. intros x _. reflexivity.
+  - cbn [fold_left]. rewrite IH. unfold remove_id. induction l as [|y l IHl]; [reflexivity|].
+    cbn [filter]. unfold mem at 2. cbn [existsb]. destruct (Z.eqb_spec y v) as [E|E]; cbn [negb orb].
+    + exact IHl.
+    + cbn [filter]. fold (mem y vs). destruct (negb (mem y vs)); [f_equal|]; exact IHl.
+Qed.
+
+Lemma skipn_add {X} a n : forall (l : list X), skipn (a + n) l = skipn n (skipn a l).
+Proof.
+  induction a as [|a IH]; intro l; [reflexivity|]. destruct l as [|y l].
+  - cbn [Nat.add skipn]. rewrite skipn_nil. reflexivity.
+  - cbn [Nat.add skipn]. apply IH.
+Qed.
+
+Lemma slice_split {X} a n (l : list X) : l = firstn a l ++ firstn n (skipn a l) ++ skipn (a + n) l.
+Proof. rewrite skipn_add, firstn_skipn, firstn_skipn. reflexivity. Qed.
+
+Lemma filter_slice pre vic post :
+  NoDup (pre ++ vic ++ post) -> filter (fun x => negb (mem x vic)) (pre ++ vic ++ post) = pre ++ post.
+Proof.
+  intro H. destruct (NoDup_app_inv pre (vic ++ post) H) as [_ [H2 Hd1]]. destruct (NoDup_app_inv vic post H2) as [_ [_ Hd2]].
+  rewrite !filter_app. rewrite (filter_all _ pre), (filter_none _ vic), (filter_all _ post); [reflexivity| | |].
+  - intros x Hx. apply negb_true_iff. apply mem_false. intro Hv. eapply Hd2; eassumption.
+  - intros x Hx. apply negb_false_iff. apply mem_In. exact Hx.
+  - intros x Hx. apply negb_true_iff. apply mem_false. intro Hv. apply (Hd1 x Hx). apply in_or_app. left. exact Hv.
+Qed.
+
+Lemma dedup_length l : (length (dedup l) <= length l)%nat.
+Proof. induction l as [|x l IH]; [cbn; lia|]. cbn [dedup]. destruct (mem x l); cbn [length]; lia. Qed.
+
+Lemma dedup_full_nodup l : length (dedup l) = length l -> NoDup l.
+Proof.
+  induction l as [|x l IH]; intro H; [constructor|]. cbn [dedup] in H. destruct (mem x l) eqn:E.
+  - pose proof (dedup_length l). cbn [length] in H. lia.
+  - cbn [length] in H. constructor; [apply mem_false; exact E|]. apply IH. lia.
+Qed.
+
+(* fold_ok *)
+Lemma fold_ok_acc (f : world -> id -> world * bool) l : forall w b,
+  fold_left (fun (st : world * bool) v => let '(w, ok) := st in let '(w', ok') := f w v in (w', ok && ok')) l (w, b) =
+  (fst (fold_ok f l w), b && snd (fold_ok f l w)).
+Proof.
+  unfold fold_ok. induction l as [|a l IH]; intros w b.
+  - cbn. rewrite andb_true_r. reflexivity.
+  - cbn [fold_left]. destruct (f w a) as [w' ok']. rewrite (IH w' (b && ok')), (IH w' (true && ok')).
+    cbn [fst snd andb]. rewrite andb_assoc. reflexivity.
+Qed.
+
+Lemma fold_ok_nil f w : fold_ok f [] w = (w, true).
+Proof. reflexivity. Qed.
+
+Lemma fold_ok_cons f v l w :
+  fold_ok f (v :: l) w = (fst (fold_ok f l (fst (f w v))), snd (f w v) && snd (fold_ok f l (fst (f w v)))).
+Proof.
+  unfold fold_ok at 1. cbn [fold_left]. destruct (f w v) as [w1 ok1]. cbn [andb fst snd]. apply fold_ok_acc.
+Qed.
